@@ -343,6 +343,19 @@ pub fn run(tier: &str) -> Report {
                 bodies.push((format!("{{ L0: {{\"{a}\"}}: ins_27(A, 10); {{\"{a}\"}}: ins_31(timeof(L0), offsetof(L0)); {{\"{b}\"}}: ins_27(A, 20); {{\"{b}\"}}: ins_31(timeof(L0), offsetof(L0)); m0(); }}"), "diffrun-cmp"));
             }}
         }
+        if host.name == "ecl06" {
+            // a label that is the `else` label of a reconstructible if / else chain AND is mentioned by a lone jump piece that
+            // stays in instruction syntax (`ins_29(timeof(L), offsetof(L))`, separated from its compare by a time label):
+            // the mention before, inside and behind the chain, with and without the compare
+            for jop in [29, 31, 33] { for cmp in ["ins_27(A, 10); +1: ", "+1: ", ""] {
+                let raw = format!("{cmp}ins_{jop}(timeof(NOT0), offsetof(NOT0));");
+                bodies.push((format!("{{ {raw} if (A != 0) goto NOT0; m0(); goto END; NOT0: mS(1); END: m0(); }}"), "raw-jump-chain"));
+                bodies.push((format!("{{ if (A != 0) goto NOT0; m0(); {raw} goto END; NOT0: mS(1); END: m0(); }}"), "raw-jump-chain"));
+                bodies.push((format!("{{ if (A != 0) goto NOT0; m0(); goto END; NOT0: mS(1); {raw} END: m0(); }}"), "raw-jump-chain"));
+                bodies.push((format!("{{ if (A != 0) goto NOT0; m0(); goto END; NOT0: mS(1); END: m0(); {raw} m0(); }}"), "raw-jump-chain"));
+                bodies.push((format!("{{ L0: if (A != 0) goto NOT0; m0(); goto END; NOT0: mS(1); END: m0(); {raw} if (--C) goto L0; }}"), "raw-jump-chain"));
+            }}
+        }
         if host.has_difficulty && !reduced {
             // the same runs with a time label inside (a folded statement has only one time): all triples of pairwise
             // disjoint masks, label before the 2nd or the 3rd instruction
